@@ -11,12 +11,18 @@ EXPLANATION = ("S1-S12 every request builder is abstractly evaluated (path-sensi
                "if present}; S15 each method passes the right LdapOp variant; enumerations Scope/DerefAliases equal RFC 4511; M1 the issue "
                "point takes controls and timeout out of the handle (Option::take), the streaming search moves all three modifiers to the "
                "stream's handle, the search start takes the options; M2/M3 on every path of every public operation method on which the "
-               "operation is issued - and on every path on which it is rejected locally - all three modifiers have been consumed. "
+               "operation is issued - and on every path on which it is rejected locally - all three modifiers have been consumed; M5 the "
+               "requests the library issues on its own (follow-up pages of the paging adapter) carry exactly the saved controls plus the "
+               "paging control and leave the saved controls as they were (C16's rules). "
                "Not decided: that lber serialises a shape into the right bytes (C07); values of arbitrary size.")
 TRUSTED = ['lber serialises shapes faithfully (C07)', 'RFC 4511 shapes transcribed in rules/props/C02.py']
 UNDECIDED = ['byte-level serialisation (C07)', 'arbitrary value sizes']
 ASSUMPTIONS = []
-SHARED = [('C08', ('P3.', 'P4.', 'P1.entry'), 'S16.filter'), ('C07', ('B1.', 'B2m.', 'B4.encoder', 'B5.'), 'S17.ber-writer')]      # the Filter of a SearchRequest is built by the filter compiler's semantic actions
+SHARED = [('C08', ('P3.', 'P4.', 'P1.entry'), 'S16.filter'), ('C07', ('B1.', 'B2m.', 'B4.encoder', 'B5.'), 'S17.ber-writer'),      # the Filter of a SearchRequest is built by the filter compiler's semantic actions
+          # the one place where the library itself attaches controls to requests the caller did not spell out: every follow-up Search of
+          # the paging adapter carries exactly the controls saved when the search started plus one paging control, and issuing it leaves
+          # the saved controls / options as they were (nothing leaks from one exchange into the next)
+          ('C16', ('A2.follow-up-controls', 'A2.saved-state-unchanged'), 'M5.paged-follow-up-carries-the-saved-controls')]
 
 SELF = ('param', 'self')
 LDAP = 'ldap3::ldap::Ldap::'
